@@ -43,7 +43,7 @@ func (e *env) section(op string, f func()) bool {
 	e.opcount[op]++
 	if msg := vh.Try(f); msg != "" {
 		what := "panic"
-		if op == "Tip" && e.in.Storage == "sparse" && e.in.Pat == "z" && strings.Contains(msg, "nil pointer") {
+		if op == "Tip" && e.in.Storage == "sparse" && e.in.Pat != "f" && strings.Contains(msg, "nil pointer") {
 			// sparse vector Swap with an absent key leaves a nil placeholder (sparse vectors: C11)
 			what = "panic_swap_absent_key"
 		}
@@ -312,20 +312,20 @@ func (e *env) checkCase() {
 	// iteration
 	e.section("ConstIterator", func() {
 		g, fin := walkConst(V.ConstIterator(), limit)
-		e.cmpSteps("ConstIterator", g, fin, expSteps(c.It[in.Pat]))
+		e.cmpSteps("ConstIterator", g, fin, expSteps(c.It[tab(in.Pat)]))
 	})
 	e.section("Iterator", func() {
 		g, fin := walk(V.Iterator(), limit)
-		e.cmpSteps("Iterator", g, fin, expSteps(c.It[in.Pat]))
+		e.cmpSteps("Iterator", g, fin, expSteps(c.It[tab(in.Pat)]))
 	})
 	if c.Vr*c.Vc > 0 {
 		e.section("ConstIteratorFrom", func() {
 			g, fin := walkConst(V.ConstIteratorFrom(c.Itfrom.I, c.Itfrom.J), limit)
-			e.cmpSteps("ConstIteratorFrom", g, fin, expSteps(c.Itfrom.S[in.Pat]))
+			e.cmpSteps("ConstIteratorFrom", g, fin, expSteps(c.Itfrom.S[tab(in.Pat)]))
 		})
 		e.section("IteratorFrom", func() {
 			g, fin := walk(V.IteratorFrom(c.Itfrom.I, c.Itfrom.J), limit)
-			e.cmpSteps("IteratorFrom", g, fin, expSteps(c.Itfrom.S[in.Pat]))
+			e.cmpSteps("IteratorFrom", g, fin, expSteps(c.Itfrom.S[tab(in.Pat)]))
 		})
 	}
 	if in.magic() {
@@ -343,7 +343,7 @@ func (e *env) checkCase() {
 					r = append(r, step{i, j, fstr(v)})
 				}
 			}
-			e.cmpSteps("MagicIterator", r, true, expSteps(c.It[in.Pat]))
+			e.cmpSteps("MagicIterator", r, true, expSteps(c.It[tab(in.Pat)]))
 			if c.Vr*c.Vc > 0 {
 				r = []step{}
 				n = 0
@@ -357,7 +357,7 @@ func (e *env) checkCase() {
 						r = append(r, step{i, j, fstr(v)})
 					}
 				}
-				e.cmpSteps("MagicIterator", r, true, expSteps(c.Itfrom.S[in.Pat]))
+				e.cmpSteps("MagicIterator", r, true, expSteps(c.Itfrom.S[tab(in.Pat)]))
 			}
 		})
 		// the same word through MagicSlice / MagicT, elements through MagicAt
